@@ -608,11 +608,11 @@ def gen_cu(ctx, deep):
     rng = ctx.rng
     full_cross_upto = 3
     per_pattern = {4: 12, 5: 6} if deep else {4: 6, 5: 4}
-    kmax = 15 if deep else 12
+    kmax = 15 if deep else 11
     for cls in CLASSES:
         fams = CLASS_FAMILIES[cls]
         for k in range(1, kmax + 1):
-            heavy = cls == "Qdmcu" and k >= 8          # quadratic depth: about 1 s per case from 12 qubits on
+            heavy = cls == "Qdmcu" and k >= 7          # quadratic depth: about 1 s per case from 12 qubits on
             if k <= 5:
                 pats = [None] + [cs_string(k, p) for p in range(1 << k)]
             elif k + 1 <= OP_MAX_QUBITS:
